@@ -1326,9 +1326,10 @@ def corr(ctx, oracle_only=False, scale=1):
         timed('run', check_run, ctx, res, batch, R, run_configs(ctx))
     # the COMPOSED step (KWNFull.eulerStep, theorem depEval_nuc): the nucleation stage inside real runs (regenerated barrier, Zeldovich,
     # impingement, incubation, rate, radius and the site competition) must reproduce every recorded row given the captured answers
-    if not oracle_only:
-        site = ctx.rng.choice(['grain boundaries', 'grain edges', 'grain corners', 'bulk', 'dislocations'])
-        timed('composed-step', kwnfull.refine_scenarios, ctx, res, PROP, [('alzr-site:' + site, int(ctx.n(120, 500) * scale) or 1), ('alzr', int(ctx.n(150, 800) * scale) or 1)], None, ('nuc',))
+    if True:      # in the oracle-only pass (search, replay) the scenarios run with their direct oracles, without the model
+        import random as _random
+        site = _random.Random(ctx.seed).choice(['grain boundaries', 'grain edges', 'grain corners', 'bulk', 'dislocations'])
+        timed('composed-step', kwnfull.refine_scenarios, ctx, res, PROP, [('alzr-site:' + site, int(ctx.n(120, 500) * scale) or 1), ('alzr', int(ctx.n(150, 800) * scale) or 1)], None, ('nuc',), not oracle_only)
     timed('driver', batch.run, res, ctx.driver_ok and not oracle_only)
     res.extra['section_seconds'] = timing
     res.extra['driver_lines'] = len(batch.lines)
